@@ -442,6 +442,8 @@ pub struct GlobalState {
     pub gc_list: StdMutex<Vec<Arc<ContextProps>>>,
     pub access_log: Option<AccessLog>,
     pub default_timeout: u64,
+    // idle timeout of UDP sessions whose listener learns only from the request that they are UDP
+    pub udp_timeout: u64,
 }
 
 impl GlobalState {
@@ -687,6 +689,11 @@ impl Context {
     pub fn set_idle_timeout(&mut self, timeout: u64) -> &mut Self {
         Arc::make_mut(&mut self.props).idle_timeout = timeout;
         self
+    }
+
+    pub fn set_udp_idle_timeout(&mut self) -> &mut Self {
+        let timeout = self.state.udp_timeout;
+        self.set_idle_timeout(timeout)
     }
 }
 
